@@ -196,13 +196,12 @@ func (t *IpTrie) DeleteKey(cidr ip.CIDR, key model.Key) {
 		return
 	}
 	node := val.(*IPTrieNode)
-	if len(node.keys) == 1 {
+	node.keys = slices.DeleteFunc(node.keys, func(h unique.Handle[model.Key]) bool {
+		return h.Value() == key
+	})
+	if len(node.keys) == 0 {
 		t.existingCidrs.Discard(cidr)
 		ptrie.Delete(patricia.Prefix(cidrb))
-	} else {
-		node.keys = slices.DeleteFunc(node.keys, func(h unique.Handle[model.Key]) bool {
-			return h.Value() == key
-		})
 	}
 }
 
